@@ -832,7 +832,12 @@ def check_log_rows(sim, fs):
         if data is None:
             continue
         delim = lg.kwargs.get("delimiter", ",")
-        rows = list(csv.reader(io.StringIO(data.decode()), delimiter=delim))
+        text = data.decode(errors="replace")
+        if not text.endswith("\n"):
+            # the run died with rows still buffered: the last durable line is torn (a cut number
+            # such as "0.0" out of "0.0010000000000000002" still parses) - judge complete rows only
+            text = text[: text.rfind("\n") + 1]
+        rows = list(csv.reader(io.StringIO(text), delimiter=delim))
         if not rows:
             continue
         for row in rows[1:]:
